@@ -472,7 +472,7 @@ impl Arenas {
         Self {
             local: crate::buf::Arena::new(64 * 64),
             trees: crate::buf::Arena::new(4096),
-            lower: crate::buf::Arena::new(1 << 16),
+            lower: crate::buf::Arena::new(1 << 19),
         }
     }
     /// Exactly sized buffers. `at_end`: flush against the trailing guard page.
